@@ -21,7 +21,7 @@ CREATED = datetime(2019, 1, 1, tzinfo=timezone.utc)
 NEVER = 987654321
 _G = {}
 
-EVENT_WRITES = ("ins1", "bulk2", "bulk49", "bulk50", "bulk51", "mix", "ups", "ups2", "rep", "repl", "del")
+EVENT_WRITES = ("ins1", "bulk2", "bulk49", "bulk50", "bulk51", "mix", "ups", "ups2", "rep", "repl", "del", "bulk49B2")
 SINGLE_EVENT_WRITES = ("ins1", "rep", "repl", "del", "insB2", "ups")
 BUCKET_OPS = ("mkB2", "updB2", "delB2", "updB1")
 READS = ("get", "get_id", "count")
@@ -96,6 +96,10 @@ class World:
         self.m.write()
         for _ in range(_G.get("seed_events", 2)):
             self._ins1("B1")
+        if _G.get("seed_B2"):
+            # a second bucket that already holds many events (bucket-level operations on big buckets)
+            self.apply("mkB2")
+            self.apply(f"bulk{_G['seed_B2']}B2")
         self.ds["B1"].get(1)
         self.k = self.m.n
         self.m.op_start = self.m.n
@@ -128,6 +132,8 @@ class World:
                 continue
             if op == "insB2" and len(self.m.events["B2"]) >= 1:
                 continue
+            if op == "bulk49B2" and ("B2" not in self.m.meta or len(self.m.events["B2"]) >= 50):
+                continue
             if op in ("delB2x", "updB2x") and "B2" in self.m.meta:
                 continue
             if op == "staleB2bulk" and ("B2" in self.m.meta or self.staleB2 is None):
@@ -143,17 +149,20 @@ class World:
         elif op == "insB2":
             self._ins1("B2")
         elif op.startswith("bulk"):
-            n = int(op[4:])
+            # bulk<N> into B1, bulk<N>B2 into the second bucket (seeded: buffered statements counted per
+            # bucket -- the bound is on the database, so writes must alternate between buckets)
+            bk = "B2" if op.endswith("B2") else "B1"
+            n = int(op[4:-2] if bk == "B2" else op[4:])
             evs, items = [], []
             for _ in range(n):
-                e, it = m.new_event("B1")
+                e, it = m.new_event(bk)
                 evs.append(e)
                 items.append(it)
-            ds["B1"].insert(evs)
+            ds[bk].insert(evs)
             for it in items:
                 m._add(it)
                 m.write()
-                m.events["B1"].append({"serial": json.loads(it[4])["n"], "id": None, "item": it})
+                m.events[bk].append({"serial": json.loads(it[4])["n"], "id": None, "item": it})
         elif op == "mix":
             tgt = self.known()[0]
             e1, it1 = m.new_event("B1")
@@ -446,7 +455,7 @@ if True:
                 u.nontrivial += 1
             if probs:
                 for sym, det in probs[:2]:
-                    case = {"backend": backend, "history": list(hist), "op": op, "oracle": oracle_name}
+                    case = {"backend": backend, "history": list(hist), "op": op, "oracle": oracle_name, "seed_events": _G.get("seed_events", 2), "seed_B2": _G.get("seed_B2", 0)}
                     u.violation(f"{backend}:{op_class(op)}:{sym}", f"{backend} history {list(hist)[-12:]} (len {len(hist)}) then {op}: {det}", case, size=len(hist) * 100 + len(op))
             else:
                 succ.append((abstract(w, imager), tuple(hist) + (op,)))
@@ -534,7 +543,12 @@ def run_k(ctx, which, configs):
     for cfg in configs:
         _G["cfg"] = cfg
         _G["seed_events"] = cfg.get("seed_events", 2)
+        _G["seed_B2"] = cfg.get("seed_B2", 0)
         agg, seen = engine.bfs(ctx, make_expand(which), [()], label=cfg["name"], max_states=cfg.get("max_states", 30000), cap_s=cfg.get("cap_s"), max_depth=cfg.get("max_depth"))
+        if cfg.get("depth_is_the_bound") and all("depth cap" in c for c in agg.caps):
+            # one-operation configurations: the depth bound is the stated bound, not a cap that was hit
+            agg.exhaustive = True
+            agg.caps = []
         per[cfg["name"]] = {"states": agg.states, "transitions": agg.transitions, "max_depth": agg.max_depth, "crash_points": agg.hist.get("crash_points_at_statements", 0) + agg.hist.get("crash_points_at_returns", 0)}
         _merge(total, agg)
     total.extra["per_config"] = per
@@ -577,6 +591,7 @@ def replay_case(ctx, case):
     K.own_clock()
     backend = case["backend"]
     _G["seed_events"] = case.get("seed_events", 2)
+    _G["seed_B2"] = case.get("seed_B2", 0)
     w = replay(backend, ctx.wdir(), tuple(case["history"]))
     imager = K.Imager(backend, w.path, os.path.join(ctx.wdir(), "img"))
     abstract(w, imager)
